@@ -322,7 +322,9 @@ class StmtMixin(object):
     handling = []
 
     def s_FunctionDef(self, node, st, acc):
-        st.env[node.name] = SV(None, "callable", py=("closure", node.name, node))
+        # a nested function is a new function object (it can be stored, compared by identity, merged)
+        obj = self.alloc(st, "function")
+        st.env[node.name] = SV(obj.z, "callable", cls="function", py=("closure", node.name, node))
         return st
 
     def s_ClassDef(self, node, st, acc):
